@@ -50,7 +50,7 @@ void harness(void) {
 
   _Bool blocking = ND_BOOL();
   int T = ND_RANGE(0, 1000000);
-  p_socket_set_blocking(A, blocking);
+  p_socket_set_blocking(A, nd_pbool(blocking));
   p_socket_set_timeout(A, T);
   vs.hard_errno = ND_INT();
   VASSUME(vs.hard_errno == ECONNRESET || vs.hard_errno == ENOBUFS || vs.hard_errno == ENOMEM || vs.hard_errno == ETIMEDOUT ||
